@@ -72,15 +72,16 @@ def passes(url, rec, opts, own_hosts):
                 (url['scheme'] != root['scheme'] or url['port'] == root['port']):
             if not _is_subdir(root['path'], url['path']):
                 failed.append('no_parent')
-    # 5 domains
-    if o['domains'] and not any(url['host'].endswith(d) for d in o['domains']):
+    # 5 domains (host names are case-insensitive, however the user typed them; an empty list item - 'a.test,' - names nothing)
+    lst = lambda key: [x.lower() for x in (o[key] or ()) if x]
+    if lst('domains') and not any(url['host'].endswith(d) for d in lst('domains')):
         failed.append('domains')
-    if o['exclude_domains'] and any(url['host'].endswith(d) for d in o['exclude_domains']):
+    if lst('exclude_domains') and any(url['host'].endswith(d) for d in lst('exclude_domains')):
         failed.append('domains')
     # 6 hostnames
-    if o['hostnames'] and url['host'] not in o['hostnames']:
+    if lst('hostnames') and url['host'] not in lst('hostnames'):
         failed.append('hostnames')
-    if o['exclude_hostnames'] and url['host'] in o['exclude_hostnames']:
+    if lst('exclude_hostnames') and url['host'] in lst('exclude_hostnames'):
         failed.append('hostnames')
     # 7 tries
     if o['tries'] and not rec.get('try_count', 0) < o['tries']:
